@@ -13,7 +13,7 @@ def _work(job):
     out, err = roundtrip.roundtrip(kind, ir, opts)
     if err:
         return (kind, oi, label, err, None)
-    return (kind, oi, label, None, roundtrip.diff_ir(ir, out, kind))
+    return (kind, oi, label, None, roundtrip.diff_ir(ir, out, kind, opts))
 
 
 def path_class(path):
